@@ -676,6 +676,10 @@ class Messenger(Connection):
             self._logger.debug('RX remain %d octets', len(self.__rx_buf))
 
             self.recv_message(pkt)
+            if self.get_app_socket() is None:
+                # Closed while handling the message, nothing more to act on
+                self.__rx_buf = b''
+                return
 
     def recv_message(self, pkt):
         ''' Handle a received full message (or contact header).
